@@ -45,6 +45,7 @@ def _job(batch):
     work = tempfile.mkdtemp(prefix='c20.')
     out = []
     n = 0
+    hist = {}
     try:
         other = os.path.join(work, 'sub', 'dir')
         os.makedirs(other)
@@ -58,6 +59,8 @@ def _job(batch):
             base_env = {'PATH': '/usr/bin:/bin'}
             b = run(plain, args, data, env=base_env)
             base = (b[0], b[1], norm_err(b[2], ['<stdin>']))
+            hk = ('typegrid' if label.startswith('typegrid/') else 'other', b[0])
+            hist[hk] = hist.get(hk, 0) + 1
             if b[0] not in (0, 1, 2):
                 continue  # the baseline run crashes: property C19's finding, nothing to compare here
             perts = []
@@ -98,7 +101,48 @@ def _job(batch):
                     out.append((label, name, base, obs, data, args))
     finally:
         shutil.rmtree(work, ignore_errors=True)
-    return n, out
+    return n, out, hist
+
+
+def multi_file(chk):
+    """several input files on one command line: (status, stdout, stderr) under every allocator/environment/build perturbation"""
+    plain, alloc, clangb, asan, msan = (build.get(v) for v in ('plain', 'alloc', 'clang', 'asan', 'msan'))
+    work = tempfile.mkdtemp(prefix='c20mf.')
+    n = 0
+    try:
+        texts = {'a.c': b'int a;\n', 'b.c': b'int b = 1;\nint fb(void) { return b; }\n', 'nonl.c': b'int nonl', 'semi.c': b';\n', 'def.c': b'#define M(x) #x x\n',
+                 'use.c': b'M(1);\n', 'sp.c': b'  + +\n', 'id.c': b'x\n', 'empty.c': b''}
+        for k, v in texts.items():
+            open(os.path.join(work, k), 'wb').write(v)
+        base_env = {'PATH': '/usr/bin:/bin'}
+        san_env = dict(base_env)
+        san_env.update(fs.SAN_ENV)
+        names = sorted(texts)
+        for combo in [(x, y) for x in names for y in names] + [('def.c', 'id.c', 'use.c'), ('a.c', 'empty.c', 'sp.c'), ('id.c', 'id.c', 'id.c')]:
+            for pp in ([], ['-E']):
+                args = pp + list(combo)
+                base = run(plain, args, env=base_env, cwd=work)
+                if base[0] not in (0, 1, 2):
+                    continue
+                perts = [('repeat', plain, base_env)] + [('MALLOC_PERTURB_=%d' % v, plain, dict(base_env, MALLOC_PERTURB_=str(v))) for v in (1, 85, 255)] + \
+                    [('allocator-policy-%d' % pol, alloc, dict(base_env, ALLOCPOL=str(pol))) for pol in range(7)] + [('clang-built', clangb, base_env), ('asan-built', asan, san_env)]
+                for name, exe, env in perts:
+                    r = run(exe, args, env=env, cwd=work)
+                    n += 1
+                    if (r[0], r[1], norm_err(r[2], [])) != (base[0], base[1], norm_err(base[2], [])):
+                        what = 'status' if r[0] != base[0] else 'stdout' if r[1] != base[1] else 'stderr'
+                        chk.violation('multi-file/%s/%s-differs' % (name, what), 'command line %s under %s: %s differs' % (' '.join(args), name, what),
+                                      files=dict({c: texts[c] for c in combo}, **{'baseline.out': base[1], 'perturbed.out': r[1], 'baseline.err': base[2], 'perturbed.err': r[2]}),
+                                      cmd='$CPROC_QBE %s | cmp - baseline.out' % ' '.join(args))
+                r = run(msan, args, env={'PATH': '/usr/bin:/bin', 'MSAN_OPTIONS': 'exit_code=97:halt_on_error=1'}, cwd=work)
+                n += 1
+                if r[0] == 97 or b'MemorySanitizer' in r[2]:
+                    m = re.search(rb'#\d+ 0x[0-9a-f]+ in (\w+) .*?/src/(\w+\.c)', r[2])
+                    chk.violation('msan/use-of-uninitialized-value/' + (m.group(1).decode() if m else '?'), 'command line %s: MemorySanitizer report' % ' '.join(args),
+                                  files=dict({c: texts[c] for c in combo}, **{'msan-report.txt': r[2][-2500:]}), cmd='$CPROC_QBE %s > /dev/null' % ' '.join(args))
+    finally:
+        shutil.rmtree(work, ignore_errors=True)
+    return n
 
 
 def _msan_job(batch):
@@ -147,8 +191,11 @@ def main(chk):
     batches = [items[i:i + 12] for i in range(0, len(items), 12)]
     nrun = 0
     outcomes = set()
-    for n, diffs in fs.pimap(_job, batches):
+    bhist = {}
+    for n, diffs, hist in fs.pimap(_job, batches):
         nrun += n
+        for k, v in hist.items():
+            bhist[k] = bhist.get(k, 0) + v
         for label, pert, base, obs, data, args in diffs:
             what = 'status' if base[0] != obs[0] else 'stdout' if base[1] != obs[1] else 'stderr'
             chk.violation('%s/%s-differs' % (pert, what), 'input %s under %s: %s differs (baseline status %s, perturbed status %s)' % (label, pert, what, base[0], obs[0]),
@@ -166,6 +213,8 @@ def main(chk):
             site = m.group(1).decode() if m else '?'
             chk.violation('msan/use-of-uninitialized-value/' + site, 'input %s: MemorySanitizer report in %s' % (label, site),
                           files={'input.c': data, 'msan-report.txt': err}, cmd='$CPROC_QBE %s < input.c > /dev/null' % ' '.join(args))
+    nmf = multi_file(chk)
+    nrun += nmf
     # imports that would make the output depend on the environment
     plain = build.get('plain')
     syms = subprocess.run(['nm', '-D', '--undefined-only', plain], stdout=subprocess.PIPE, timeout=60).stdout.decode()
@@ -185,7 +234,9 @@ def main(chk):
         'samples': [{'input': items[0][0], 'perturbations': ['repeat', 'input-by-path', 'output-by-o', 'empty-env', 'MALLOC_PERTURB_=85', 'allocator-policy-3 (bump down)',
                                                              'allocator-policy-4 (LIFO reuse, poison)', 'clang-built', 'asan-built', 'no-aslr']}],
         'inputs': len(items),
+        'baseline_status_histogram': {'%s/status-%s' % k: v for k, v in sorted(bhist.items(), key=str)},
         'perturbed_runs': nrun,
+        'multi_file_runs': nmf,
         'msan_runs': nms,
         'valgrind_runs': nvg,
         'banned_imports_found': banned,
